@@ -37,6 +37,9 @@ type c14Case struct {
 	ClearAt  int    // sticky: the harness clears the fault before this batch number
 	Second   int    // optional second placement (op index), -1 none
 	Dir      string
+	// >0: the fault is the n-th segment Persist of the MERGER, and it arrives only after the foreground has
+	// applied one more batch (a merge failing while batches go on)
+	MergerNth int `json:",omitempty"`
 }
 
 type c14Fired struct {
@@ -64,6 +67,9 @@ type c14Result struct {
 	EventsBeforeProbe int // length of the directory trace when the merge-alive probe began
 	OpsBeforeProbe    int // number of directory operations before the probe (fault placements are drawn from these)
 	SegmentsAfterProbe int
+	Overlapped  bool // MergerNth: a batch was applied between the merger's Persist call and its failure
+	ProbeReached     bool
+	AsyncBeforeProbe int // asynchronous errors reported until the fault was over, the final batch acknowledged and the writer quiet
 }
 
 var errInjected = errors.New("injected I/O error")
@@ -95,12 +101,14 @@ func c14Workload(cs *c14Case, res *c14Result) {
 	active := cs.FaultAt >= 0
 	firedOnce := false
 	secondDone := cs.Second < 0
+	mergerPersists := 0
+	var applied int64 // batches the foreground has got back from Batch
 	var asyncMu sync.Mutex
 	fs := fsOpts{Loader: "mmap", Merge: "happy", MemMerge: cs.MemMerge, Unsafe: cs.Unsafe}
 	freshDir(cs.Dir) // (a case can be run a second time by the child runner)
 	cfg := fsConfig(cs.Dir, fs, func(inner index.Directory) index.Directory {
 		rdir = mon.NewRDir(inner, cs.Dir)
-		rdir.Fault = func(idx int, p mon.Point) *mon.FaultSpec {
+		decide := func(idx int, p mon.Point) *mon.FaultSpec {
 			mu.Lock()
 			defer mu.Unlock()
 			res.Ops = append(res.Ops, p.Name+p.Kind)
@@ -108,7 +116,16 @@ func c14Workload(cs *c14Case, res *c14Result) {
 				return nil
 			}
 			fire := false
-			if idx >= cs.FaultAt && (!firedOnce || cs.Sticky) {
+			if cs.MergerNth > 0 {
+				// the n-th segment written by the MERGER fails (whatever its index in this run's trace)
+				if p.Role == "merger" && p.Kind == ".seg" && !firedOnce {
+					mergerPersists++
+					fire = mergerPersists == cs.MergerNth
+				}
+				if !fire {
+					return nil
+				}
+			} else if idx >= cs.FaultAt && (!firedOnce || cs.Sticky) {
 				fire = true
 			}
 			if !fire && !secondDone && firedOnce && idx >= cs.Second {
@@ -126,6 +143,23 @@ func c14Workload(cs *c14Case, res *c14Result) {
 				sp.AfterBytes = 10
 			case "full":
 				sp.AfterFull = true
+			}
+			return sp
+		}
+		rdir.Fault = func(idx int, p mon.Point) *mon.FaultSpec {
+			sp := decide(idx, p)
+			if sp != nil && cs.MergerNth > 0 {
+				// the failure arrives only after the foreground applied at least one more batch: whatever the
+				// merger took for this merge (a segment id, a view of the root) is no longer the newest
+				from := atomic.LoadInt64(&applied)
+				for dl := time.Now().Add(1500 * time.Millisecond); atomic.LoadInt64(&applied) == from && time.Now().Before(dl); {
+					time.Sleep(2 * time.Millisecond)
+				}
+				if atomic.LoadInt64(&applied) > from {
+					mu.Lock()
+					res.Overlapped = true
+					mu.Unlock()
+				}
 			}
 			return sp
 		}
@@ -174,6 +208,7 @@ func c14Workload(cs *c14Case, res *c14Result) {
 		}
 		rdir.Mark("call", n)
 		err := w.Batch(rb)
+		atomic.AddInt64(&applied, 1)
 		if err != nil {
 			res.BatchErrs[n] = err.Error()
 			rdir.Mark("batch-error", n)
@@ -218,6 +253,7 @@ func c14Workload(cs *c14Case, res *c14Result) {
 	}
 	rdir.Mark("call", n)
 	err = w.Batch(rb)
+	atomic.AddInt64(&applied, 1)
 	if cs.Unsafe && err == nil {
 		select {
 		case err = <-ackCh:
@@ -244,6 +280,10 @@ func c14Workload(cs *c14Case, res *c14Result) {
 		}
 		waitQuiet(w)
 		res.EventsBeforeProbe = len(rdir.Events())
+		asyncMu.Lock()
+		res.AsyncBeforeProbe = len(res.AsyncErrors)
+		asyncMu.Unlock()
+		res.ProbeReached = true
 		mu.Lock()
 		res.OpsBeforeProbe = len(res.Ops)
 		mu.Unlock()
@@ -350,10 +390,21 @@ func runC14(c *vk.Ctx) {
 			byOp[name] = append(byOp[name], i)
 		}
 		c.Set(fmt.Sprintf("reference_ops_history_%d", h), len(refRes.Ops))
+		mergerSegs := 0
+		for _, e := range refRes.Events {
+			if e.Op == "persist-begin" && e.Kind == ".seg" && e.Role == "merger" {
+				mergerSegs++
+			}
+		}
+		c.Set(fmt.Sprintf("reference_segments_written_by_the_merger_history_%d", h), mergerSegs)
 		r := rand.New(rand.NewSource(seed))
 		var cases []interface{}
 		add := func(cs c14Case) {
 			cs.Seed, cs.Batches, cs.Unsafe, cs.MemMerge = seed, nb, unsafe, memMerge
+			if cs.MergerNth > 0 {
+				// every merge is a file merge, and the history is longer: the merger writes a dozen segments
+				cs.MemMerge, cs.Batches = false, 44
+			}
 			cs.Dir = c.TempDir("c14-")
 			cases = append(cases, cs)
 		}
@@ -397,6 +448,11 @@ func runC14(c *vk.Ctx) {
 		for _, k := range placements("list", 2) {
 			add(c14Case{FaultAt: k, Op: "list", Second: -1})
 		}
+		// a merge failing while batches go on: the n-th segment written by the merger fails, and the failure
+		// arrives after the foreground has applied one more batch
+		for nth := 1; nth <= c.Pick(4, 8); nth++ {
+			add(c14Case{FaultAt: 0, Op: "persist", Mode: []string{"before", "partial", "full"}[nth%3], Second: -1, MergerNth: nth})
+		}
 		if !c.Quick() {
 			ops := byOp["persist"]
 			for p := 0; p < 60 && len(ops) > 2; p++ {
@@ -414,6 +470,7 @@ func runC14(c *vk.Ctx) {
 		}
 	}
 	c14Reopen(c) // List / Load failing while an index holding data is re-opened
+	c.Require("merger_faults_overlapped_by_a_batch", 3)
 	c.Require("reopen_faults_fired", 4)
 	c.Require("faults_fired", 40)
 	c.Require("fired_persist", 20)
@@ -468,6 +525,29 @@ func c14Judge(c *vk.Ctx, cs *c14Case, res *vk.ChildResult) {
 		c.Event("merge_probe_slow", 1)
 	} else if out.SegmentsAfterProbe > 0 {
 		c.Event("merge_alive_probes_after_fault", 1)
+	}
+	if out.Overlapped {
+		c.Event("merger_faults_overlapped_by_a_batch", 1)
+	}
+	if cs.MergerNth > 0 {
+		c.Event("merger_nth_faults_fired", 1)
+	}
+	if out.ProbeReached && len(out.AsyncErrors) > out.AsyncBeforeProbe {
+		// the fault is over, a batch has been acknowledged since and the writer was quiet: the further batches
+		// of the probe run without any injected fault. Errors that are still being reported then and that are
+		// NOT the injected one (which a slow background goroutine may deliver late) are new failures that the
+		// cleared fault left behind
+		var late []string
+		for _, e := range out.AsyncErrors[out.AsyncBeforeProbe:] {
+			if !strings.Contains(e, errInjected.Error()) {
+				late = append(late, e)
+			}
+		}
+		if len(late) > 0 {
+			c.Violate("errors-keep-coming-after-fault-cleared", fmt.Sprintf("%s fault (%s, sticky=%v, merger-nth=%d) at operation %d, long cleared: %d further asynchronous errors (none of them the injected one) during the fault-free batches that followed, e.g. %s", cs.Op, cs.Mode, cs.Sticky, cs.MergerNth, cs.FaultAt, len(late), late[len(late)-1]), wit)
+		} else {
+			c.Event("injected_error_delivered_late", 1)
+		}
 	}
 	for _, e := range out.Events {
 		if e.Op == "mark" && e.Tag == "failed-persist-left-file" {
